@@ -121,6 +121,12 @@ pub(crate) struct CoreInner {
 	/// snapshot-aware compaction.
 	pub(crate) snapshot_tracker: SnapshotTracker,
 
+	/// Serialises the flushers of immutable memtables (background flush task,
+	/// checkpoint, explicit flush, shutdown). Each of them picks an entry of the
+	/// queue and writes the table file named after its table id: two of them
+	/// working on the same entry would write the same file at once.
+	flush_lock: parking_lot::Mutex<()>,
+
 	/// Tracker for ALL active transaction `start_seq_num`s. Used as the
 	/// watermark source for `CommitOracle` GC. Separate from
 	/// `snapshot_tracker` because write-only txns need GC protection but
@@ -206,6 +212,7 @@ impl CoreInner {
 			immutable_memtables,
 			level_manifest,
 			snapshot_tracker: SnapshotTracker::new(),
+			flush_lock: parking_lot::Mutex::new(()),
 			active_txn_tracker: Arc::new(crate::tracker::ActiveTxnTracker::new()),
 			vlog,
 			wal: WalManager::new(wal_instance),
@@ -447,6 +454,10 @@ impl CoreInner {
 	/// 2. Flushes it to SST via flush_immutable_to_sst (which also removes from queue)
 	/// 3. Schedules async WAL cleanup
 	fn flush_oldest_immutable_to_sst(&self) -> Result<Option<Arc<Table>>> {
+		// One flusher at a time: the entry is picked, written and removed from
+		// the queue under this lock, so a concurrent flusher sees the next one.
+		let _flushing = self.flush_lock.lock();
+
 		// Get the oldest immutable entry (clone to release lock before I/O)
 		let entry = {
 			let guard = self.immutable_memtables.read()?;
@@ -617,7 +628,13 @@ impl CoreInner {
 			}
 		};
 
-		// Step 3: Flush the immutable memtable to disk and update manifest
+		// Step 3: Flush the immutable memtable to disk and update manifest, unless
+		// a concurrent flusher took it from the queue in the meantime
+		let _flushing = self.flush_lock.lock();
+		let still_queued = self.immutable_memtables.read()?.iter().any(|e| e.table_id == table_id);
+		if !still_queued {
+			return Ok(None);
+		}
 		let table = self.flush_immutable_to_sst(
 			Arc::clone(&flushed_memtable),
 			table_id,
